@@ -4,7 +4,7 @@
    write_oas_model_d is compared byte for byte with Library::write_oas under the three non-zero flag words on every run
    (unit c04w, kind wrd). *)
 Require Import Base OasisInt OasisSpec OasisSpecProofs OasisRead OasisWrite OasisWriteProofs OasisRoundtrip.
-Require Import OasisDetect OasisDetectProofs OasisWriteDetect OasisWriteDetectProofs OasisWriteDetectRoundtrip.
+Require Import OasisDetect OasisDetectProofs OasisWriteDetect OasisWriteDetectProofs OasisReadRelaxed OasisWriteDetectRoundtrip.
 Local Open Scope N_scope.
 
 (* with both flags off the model is the writer model of OasisWrite.v, for every input: every theorem about write_oas_model
@@ -46,7 +46,49 @@ Theorem decoder_flag_independence_thm : forall (cfg : wcfg) (f1 f2 : dflags) (l 
 Proof. exact decoder_flag_independence_lemma. Qed.
 Print Assumptions decoder_flag_independence_thm.
 
-(* (b) the file stays in the class `covered` of OasisRead.v - provided no CTRAPEZOID of type 25 is written (guard c5) ... *)
+(* (b) the reader model.  Guard (c5) of the reader theorem relaxed (OasisReadRelaxed.v): the guarded decoder extended by
+   CTRAPEZOID records that only (c5) rejects, the modal height being undefined afterwards, still predicts the reader *)
+Theorem cov5_reader_ok_thm : forall (bs : list N) (L : layout), xdecode cov_record5 bs = Some L -> read_oas_model bs = Ok (view L).
+Proof. exact cov5_reader_ok_lemma. Qed.
+Print Assumptions cov5_reader_ok_thm.
+
+(* the file written under ANY flag word is accepted by that decoder and decodes to the library as the file holds it *)
+Theorem writer_output_cov5_decode_d_thm : forall (cfg : wcfg) (flags : dflags) (l : wlib),
+  wlib_ok_d flags l -> wlib_small_d flags l ->
+  xdecode cov_record5 (write_oas_model_d cfg flags l) = Some (view_w_d cfg flags l).
+Proof. exact writer_output_cov5_decode_d_lemma. Qed.
+Print Assumptions writer_output_cov5_decode_d_thm.
+
+(* save under any flag word, load with the reader model: the library as the file holds it *)
+Theorem oas_models_roundtrip_d_all_thm : forall (cfg : wcfg) (flags : dflags) (l : wlib),
+  wlib_ok_d flags l -> wlib_small_d flags l ->
+  read_oas_model (write_oas_model_d cfg flags l) = Ok (view (view_w_d cfg flags l)).
+Proof. exact oas_models_roundtrip_d_all_lemma. Qed.
+Print Assumptions oas_models_roundtrip_d_all_thm.
+
+(* similar layouts are loaded as similar libraries (GPolygon vertices up to same_cycle, S_CELL_OFFSET values) *)
+Theorem view_sim_thm : forall (L L' : layout), layout_sim L L' -> rlib_sim (view L) (view L').
+Proof. exact view_sim_lemma. Qed.
+Print Assumptions view_sim_thm.
+
+(* loading the detected file = loading the undetected file, up to that *)
+Theorem reader_detected_vs_plain_thm : forall (cfg : wcfg) (flags : dflags) (l : wlib),
+  wlib_ok l -> wlib_small l -> wlib_ok_d flags l -> wlib_small_d flags l ->
+  exists A B, read_oas_model (write_oas_model_d cfg flags l) = Ok A /\
+              read_oas_model (write_oas_model cfg l) = Ok B /\ rlib_sim A B.
+Proof. exact reader_detected_vs_plain_lemma. Qed.
+Print Assumptions reader_detected_vs_plain_thm.
+
+(* (c) flag independence for the reader model: any two flag words *)
+Theorem reader_flag_independence_thm : forall (cfg : wcfg) (f1 f2 : dflags) (l : wlib),
+  wlib_ok_d f1 l -> wlib_small_d f1 l -> wlib_ok_d f2 l -> wlib_small_d f2 l ->
+  exists A B, read_oas_model (write_oas_model_d cfg f1 l) = Ok A /\
+              read_oas_model (write_oas_model_d cfg f2 l) = Ok B /\ rlib_sim A B.
+Proof. exact reader_flag_independence_lemma. Qed.
+Print Assumptions reader_flag_independence_thm.
+
+(* ---- the class `covered` of OasisRead.v as it stands (guard c5 included): the file is in it when no CTRAPEZOID of type 25
+   is written ... *)
 Theorem writer_output_covered_d_thm : forall (cfg : wcfg) (flags : dflags) (l : wlib),
   wlib_ok_d flags l -> wlib_small_d flags l -> no_ctrap25 flags l -> covered (write_oas_model_d cfg flags l).
 Proof. exact writer_output_covered_d_lemma. Qed.
@@ -57,36 +99,8 @@ Theorem no_ctrap25_flags_thm : forall (flags : dflags) (l : wlib), fst flags = t
 Proof. exact no_ctrap25_flags. Qed.
 Print Assumptions no_ctrap25_flags_thm.
 
-(* ... and not for a square under (false, true): the statement without the side condition is refuted *)
+(* ... and not for a square under (false, true): "always covered" is refuted *)
 Theorem writer_output_covered_d_refuted : exists cfg flags l,
   wlib_ok_d flags l /\ wlib_small_d flags l /\ ~ covered (write_oas_model_d cfg flags l).
 Proof. exact writer_output_covered_d_refuted_lemma. Qed.
 Print Assumptions writer_output_covered_d_refuted.
-
-(* save with the detection flags, load with the reader model: the library as the file holds it *)
-Theorem oas_models_roundtrip_d_thm : forall (cfg : wcfg) (flags : dflags) (l : wlib),
-  wlib_ok_d flags l -> wlib_small_d flags l -> no_ctrap25 flags l ->
-  read_oas_model (write_oas_model_d cfg flags l) = Ok (view (view_w_d cfg flags l)).
-Proof. exact oas_models_roundtrip_d_lemma. Qed.
-Print Assumptions oas_models_roundtrip_d_thm.
-
-(* similar layouts are loaded as similar libraries (GPolygon vertices up to same_cycle, S_CELL_OFFSET values) *)
-Theorem view_sim_thm : forall (L L' : layout), layout_sim L L' -> rlib_sim (view L) (view L').
-Proof. exact view_sim_lemma. Qed.
-Print Assumptions view_sim_thm.
-
-(* loading the detected file = loading the undetected file, up to that *)
-Theorem reader_detected_vs_plain_thm : forall (cfg : wcfg) (flags : dflags) (l : wlib),
-  wlib_ok l -> wlib_small l -> wlib_ok_d flags l -> wlib_small_d flags l -> no_ctrap25 flags l ->
-  exists A B, read_oas_model (write_oas_model_d cfg flags l) = Ok A /\
-              read_oas_model (write_oas_model cfg l) = Ok B /\ rlib_sim A B.
-Proof. exact reader_detected_vs_plain_lemma. Qed.
-Print Assumptions reader_detected_vs_plain_thm.
-
-(* (c) flag independence for the reader model *)
-Theorem reader_flag_independence_thm : forall (cfg : wcfg) (f1 f2 : dflags) (l : wlib),
-  wlib_ok_d f1 l -> wlib_small_d f1 l -> no_ctrap25 f1 l -> wlib_ok_d f2 l -> wlib_small_d f2 l -> no_ctrap25 f2 l ->
-  exists A B, read_oas_model (write_oas_model_d cfg f1 l) = Ok A /\
-              read_oas_model (write_oas_model_d cfg f2 l) = Ok B /\ rlib_sim A B.
-Proof. exact reader_flag_independence_lemma. Qed.
-Print Assumptions reader_flag_independence_thm.
